@@ -1271,3 +1271,42 @@ fn c11_range_steps() {
 // (A two-part obligation - `Path::update` on `.[a]?.[b]` / `.[a].[b]?` addresses each part with
 // its own `?` mark, in order, with a container whose `map_index` applies the update function to
 // the child - was built and exceeded 400 s for both mark combinations; not registered.)
+
+// ------------------------------------------------------------------------------------------
+// C15: a delimited block must be consumed completely
+// ------------------------------------------------------------------------------------------
+/// `Parser::verify_last(last)` accepts exactly when what remains of the block is the closing
+/// delimiter alone (or nothing, for the top level where `last` is ""): leftover tokens before
+/// the delimiter - `[1, 2 3]`, `(1 2)`, `"\(1 2)"` - are an error, never silently dropped.
+/// Remaining token lists of length 0..=2 over `]`, `)`, `x` and every expected delimiter,
+/// enumerated concretely.
+#[kani::proof]
+#[kani::unwind(6)]
+fn c15_verify_last() {
+    use crate::load::lex::{Tok, Token};
+    use crate::load::parse::Parser;
+    let texts = ["]", ")", "x"];
+    let lasts = ["", "]", ")"];
+    let mut l = 0;
+    while l < 3 {
+        let last = lasts[l];
+        // nothing left
+        let none: [Token<&str>; 0] = [];
+        assert!(Parser::verif_verify_last(&none, last) == (last == ""));
+        let mut a = 0;
+        while a < 3 {
+            // one token left: accepted iff it is the expected delimiter
+            let one = MD::new([Token(texts[a], Tok::Sym)]);
+            assert!(Parser::verif_verify_last(&*one, last) == (last != "" && texts[a] == last));
+            let mut b = 0;
+            while b < 3 {
+                // two tokens left: never accepted, whatever the last one is
+                let two = MD::new([Token(texts[a], Tok::Sym), Token(texts[b], Tok::Sym)]);
+                assert!(!Parser::verif_verify_last(&*two, last));
+                b += 1;
+            }
+            a += 1;
+        }
+        l += 1;
+    }
+}
